@@ -1,1 +1,35 @@
-From PyecoreV Require Import Model.Kernel.
+(* C02 — every object has exactly one owner, and the back-pointers say so.
+   Statements only; proofs in Proofs/C02Proofs.v over Model/Kernel.v.
+   Proved: the atomicity half at full strength — whatever public operation
+   fails (BadValueError, KeyError, IndexError, ValueError, TypeError), the
+   whole state, hence every container, containment slot, resource list and
+   back-pointer, is exactly what it was.
+   PARTIAL: the single-owner invariant itself (slot membership <-> eContainer /
+   eContainmentFeature, root lists <-> eResource, acyclicity) is not yet a
+   theorem; it is carried by the correspondence on the ownership projection
+   and by the forest oracle of harness/props/c02.py. *)
+From Coq Require Import ZArith List Bool Arith.
+From PyecoreV Require Import Lib.PyBase Lib.PyList Model.Kernel Proofs.C02Proofs.
+Import ListNotations.
+
+Theorem C02_failed_operation_changes_nothing_partial :
+  forall m s o e s' r,
+    atomic_op m o -> step m s o = ((Some e, s'), r) -> s' = s.
+Proof. exact failed_op_changes_nothing. Qed.
+Print Assumptions C02_failed_operation_changes_nothing_partial.
+
+(* non-vacuity: a failing remove on a containment, and an accepted move between two owners *)
+Definition ex_mm : mm :=
+  {| feats := [ {| f_owner := 0; f_isref := true; f_many := true; f_unique := true; f_cont := true;
+                   f_opp := Some 1; f_type := TClass 1; f_default := VNone |};
+                {| f_owner := 1; f_isref := true; f_many := false; f_unique := true; f_cont := false;
+                   f_opp := Some 0; f_type := TClass 0; f_default := VNone |} ];
+     conf := [(0, 0); (1, 1)]; ocls := [0; 0; 1]; enames := []; nres := 1 |}.
+
+Example C02_witness :
+  let s1 := next ex_mm (init_state ex_mm) (OAppend 0 0 (VObj 2)) in
+  let r := step ex_mm s1 (ORemove 1 0 (VObj 2)) in
+  let s2 := next ex_mm s1 (OAppend 1 0 (VObj 2)) in
+  fst (fst r) = Some KeyErr /\ cont (snd (fst r)) 2 = Some (0, 0) /\
+  cont s2 2 = Some (1, 0) /\ vals s2 (0, 0) = [] /\ vals s2 (1, 0) = [VObj 2] /\ vals s2 (2, 1) = [VObj 1].
+Proof. vm_compute. repeat split; reflexivity. Qed.
